@@ -6,6 +6,8 @@ use vstd::prelude::*;
 
 verus! {
 
+//@ include std_specs.inc
+
 global size_of usize == 8;   // the crate targets 64-bit unix; accumulator bounds below need the width
 
 // N18: the dependency type rasterize::RGBA is replaced by an opaque stand-in carrying only the contract of the
